@@ -2,11 +2,10 @@
 //! darken, saturate, desaturate, grayscale and complement.  The Sass
 //! functions are closures inside `sass::functions::color::hsl::{register,
 //! expose}`, reachable only through the built-in function table, so the
-//! statement ranges that compute the new color from the hsl view of the
-//! argument are cut out of /repo's current source on every run
+//! closure bodies are cut out of /repo's current source on every run
 //! (tools/extract.py) and wrapped in functions of their free variables; the
-//! only substitution is the argument fetch `s.get_map(name!(amount), …)?`,
-//! replaced by the parameter.  `Hsla::new` below is the real one (its hue
+//! only substitutions are the argument fetches (`s.get::<Color>(…)?`,
+//! `s.get_map(name!(amount), …)?`), replaced by the parameters.  `Hsla::new` below is the real one (its hue
 //! normalisation `deg_mod` by its assumed contract).  Loop-free, all doubles
 //! in the channel ranges: complete.
 use super::*;
@@ -19,30 +18,36 @@ fn any_hsla_valid() -> Hsla {
     Hsla::new(h, s, l, a, kani::any())
 }
 
-//@range file=rsass/src/sass/functions/color/hsl.rs fn=expose from="let lum = col.lum() + s.get_map(name!(amount), check_amount)?;" until="});"
-//@  header: fn snippet_lighten(col: Hsla, amount: f64) -> Result<Value, CallError>
+//@range file=rsass/src/sass/functions/color/hsl.rs fn=expose after="def!(f, lighten(color, amount), |s| {" until="\n    });"
+//@  header: fn snippet_lighten(color_arg: Color, amount: f64) -> Result<Value, CallError>
+//@  subst: s.get::<Color>(name!(color))? => color_arg
 //@  subst: s.get_map(name!(amount), check_amount)? => amount
 //@end
 
-//@range file=rsass/src/sass/functions/color/hsl.rs fn=expose from="let lum = col.lum() - s.get_map(name!(amount), check_amount)?;" until="});"
-//@  header: fn snippet_darken(col: Hsla, amount: f64) -> Result<Value, CallError>
+//@range file=rsass/src/sass/functions/color/hsl.rs fn=expose after="def!(f, darken(color, amount), |s| {" until="\n    });"
+//@  header: fn snippet_darken(color_arg: Color, amount: f64) -> Result<Value, CallError>
+//@  subst: s.get::<Color>(name!(color))? => color_arg
 //@  subst: s.get_map(name!(amount), check_amount)? => amount
 //@end
 
-//@range file=rsass/src/sass/functions/color/hsl.rs fn=expose from="let sat = col.sat() - s.get_map(name!(amount), check_amount)?;" until="});"
-//@  header: fn snippet_desaturate(col: Hsla, amount: f64) -> Result<Value, CallError>
+//@range file=rsass/src/sass/functions/color/hsl.rs fn=expose after="def!(f, desaturate(color, amount), |s| {" until="\n    });"
+//@  header: fn snippet_desaturate(color_arg: Color, amount: f64) -> Result<Value, CallError>
+//@  subst: s.get::<Color>(name!(color))? => color_arg
 //@  subst: s.get_map(name!(amount), check_amount)? => amount
 //@end
 
-//@range file=rsass/src/sass/functions/color/hsl.rs fn=expose from="let sat = (col.sat() + sat)" until="\n            }\n"
-//@  header: fn snippet_saturate(col: Hsla, sat: f64) -> Result<Value, CallError>
+//@range file=rsass/src/sass/functions/color/hsl.rs fn=expose after="Ok(s) => {" until="\n            }\n"
+//@  header: fn snippet_saturate(color_arg: Color, amount: f64) -> Result<Value, CallError>
+//@  subst: s.get::<Color>(name!(color))? => color_arg
+//@  subst: s.get_map(name!(amount), check_amount)? => amount
 //@end
 
-//@range file=rsass/src/sass/functions/color/hsl.rs fn=expose from="Ok(\n                Hsla::new(col.hue(), 0., col.lum(), col.alpha(), false)" until="\n        }\n"
-//@  header: fn snippet_grayscale(col: Hsla) -> Result<Value, CallError>
+//@range file=rsass/src/sass/functions/color/hsl.rs fn=expose from="match args.get(name!(color))? {" balanced=1
+//@  header: fn snippet_grayscale(color_arg: Color) -> Result<Value, CallError>
+//@  subst: args.get(name!(color))? => Value::Color(color_arg, None)
 //@end
 
-//@range file=rsass/src/sass/functions/color/hsl.rs fn=register from="Ok(s.get::<Color>(name!(color))?.rotate_hue(" until="\n    });"
+//@range file=rsass/src/sass/functions/color/hsl.rs fn=register after="def!(f, complement(color), |s| {" until="\n    });"
 //@  header: fn snippet_complement(color: Color) -> Result<Value, CallError>
 //@  subst: s.get::<Color>(name!(color))? => color
 //@end
@@ -73,7 +78,7 @@ fn clamp01(x: f64) -> f64 {
 fn c32_lighten_moves_lightness_clamped() {
     let c = any_hsla_valid();
     let a = any_amount();
-    let r = hsla_of(snippet_lighten(c.clone(), a));
+    let r = hsla_of(snippet_lighten(Color::Hsla(c.clone()), a));
     assert!(r.lum() == clamp01(c.lum() + a), "lighten: lightness + amount, clamped to [0, 100%]");
     assert!(r.hue() == c.hue() && r.sat() == c.sat() && r.alpha() == c.alpha(), "lighten: other channels unchanged");
 }
@@ -83,7 +88,7 @@ fn c32_lighten_moves_lightness_clamped() {
 fn c32_darken_moves_lightness_clamped() {
     let c = any_hsla_valid();
     let a = any_amount();
-    let r = hsla_of(snippet_darken(c.clone(), a));
+    let r = hsla_of(snippet_darken(Color::Hsla(c.clone()), a));
     assert!(r.lum() == clamp01(c.lum() - a), "darken: lightness - amount, clamped to [0, 100%]");
     assert!(r.hue() == c.hue() && r.sat() == c.sat() && r.alpha() == c.alpha(), "darken: other channels unchanged");
 }
@@ -95,8 +100,8 @@ fn c32_lighten_darken_undo() {
     let c = any_hsla_valid();
     let a = any_amount();
     kani::assume(c.lum() + a <= 1.0);
-    let up = hsla_of(snippet_lighten(c.clone(), a));
-    let back = hsla_of(snippet_darken(up, a));
+    let up = hsla_of(snippet_lighten(Color::Hsla(c.clone()), a));
+    let back = hsla_of(snippet_darken(Color::Hsla(up), a));
     assert!((back.lum() - c.lum()).abs() <= 4.0 * f64::EPSILON, "darken undoes lighten when nothing was clamped");
     assert!(back.hue() == c.hue() && back.sat() == c.sat() && back.alpha() == c.alpha());
 }
@@ -107,7 +112,7 @@ fn c32_lighten_darken_undo() {
 fn c32_saturate_moves_saturation_clamped() {
     let c = any_hsla_valid();
     let a = any_amount();
-    let r = hsla_of(snippet_saturate(c.clone(), a));
+    let r = hsla_of(snippet_saturate(Color::Hsla(c.clone()), a));
     assert!(r.sat() == clamp01(c.sat() + a), "saturate: saturation + amount, clamped");
     assert!(r.hue() == c.hue() && r.lum() == c.lum() && r.alpha() == c.alpha(), "saturate: other channels unchanged");
 }
@@ -116,7 +121,7 @@ fn c32_saturate_moves_saturation_clamped() {
 fn c32_desaturate_moves_saturation_clamped() {
     let c = any_hsla_valid();
     let a = any_amount();
-    let r = hsla_of(snippet_desaturate(c.clone(), a));
+    let r = hsla_of(snippet_desaturate(Color::Hsla(c.clone()), a));
     assert!(r.sat() == clamp01(c.sat() - a), "desaturate: saturation - amount, clamped");
     assert!(r.hue() == c.hue() && r.lum() == c.lum() && r.alpha() == c.alpha(), "desaturate: other channels unchanged");
 }
@@ -124,8 +129,11 @@ fn c32_desaturate_moves_saturation_clamped() {
 #[kani::proof]
 #[kani::stub(crate::value::colors::hsla::deg_mod, crate::value::colors::hsla::kani_verif::deg_mod_by_contract)]
 fn c32_grayscale_zero_saturation() {
-    let c = any_hsla_valid();
-    let r = hsla_of(snippet_grayscale(c.clone()));
+    // also for out-of-gamut saturation (hsl(210, 150%, 40%) is a legal value)
+    let (h, sat, l, a): (f64, f64, f64, f64) = (kani::any(), kani::any(), kani::any(), kani::any());
+    kani::assume(0.0 <= h && h < 360.0 && 0.0 <= sat && sat <= 2.0 && 0.0 <= l && l <= 1.0 && 0.0 <= a && a <= 1.0);
+    let c = Hsla::new(h, sat, l, a, kani::any());
+    let r = hsla_of(snippet_grayscale(Color::Hsla(c.clone())));
     assert!(r.sat() == 0.0, "grayscale: saturation 0");
     assert!(r.lum() == c.lum() && r.alpha() == c.alpha() && r.hue() == c.hue(), "grayscale: lightness, alpha (and hue) unchanged");
 }
